@@ -25,6 +25,7 @@ ASSUMPTIONS = ['approximate modes are judged on non-decreasing key columns only'
 NA = R.Err('NA')
 REF = R.Err('REF')
 ANYERR = R.Err('ANY')
+BLANK = 'blank-cell'
 
 NUM_KEYS, NUM_LOOK = [10, 20.0, 30], [5, 10.0, 15, 20, 25.5, 30, 35]   # ints and floats are one kind of number
 TXT_KEYS, TXT_LOOK = ['a', 'b', 'c'], ['a', 'b', 'c', 'd']
@@ -98,6 +99,8 @@ LOOKUP_SCAFFOLD = [('S', LOOKUP_CELLS), ('L', {f'{c}{r}': val(r, k) for r in ran
 def classify(keys):
     if None in keys:
         return 'with-blanks'
+    if any(isinstance(k, bool) for k in keys):
+        return 'with-logicals'
     if all(a < b for a, b in zip(keys, keys[1:])):
         return 'ascending'
     if all(a <= b for a, b in zip(keys, keys[1:])):
@@ -111,6 +114,8 @@ def value_pos(keys, v):
     if v in keys:
         return 'present'
     keys = [k for k in keys if k is not None] or [v]
+    if isinstance(v, bool) or any(isinstance(k, bool) for k in keys):
+        return 'logical'
     if v < min(keys):
         return 'below'
     if v > max(keys):
@@ -126,8 +131,11 @@ def expected_lookup(d, keys, v):
         return None
     if None in keys and mode != 'exact':
         return None   # a key column with blank gaps: only exact matching is fixed (a blank is never the key)
+    if (any(isinstance(k, bool) for k in keys) or isinstance(v, bool)) and mode != 'exact':
+        return None   # logical values among the keys / as the lookup value: only exact matching is fixed
     if mode == 'exact':
-        hits = [i for i, k in enumerate(keys) if k == v]
+        # logical values are a kind of their own: TRUE is found at TRUE only, never at 1
+        hits = [i for i, k in enumerate(keys) if isinstance(k, bool) == isinstance(v, bool) and k == v]
         if not hits:
             # the statement names #N/A for the lookup functions themselves; INDEX over a failed MATCH is any error
             return ANYERR if func == 'INDEX-MATCH' else NA
@@ -184,6 +192,8 @@ def run_lookup_ov(cases, stats):
 
 
 def _lit(v):
+    if isinstance(v, bool):
+        return 'TRUE' if v else 'FALSE'
     return '"' + v + '"' if isinstance(v, str) else str(v)
 
 
@@ -253,6 +263,9 @@ def build_index_scaffold():
         cells[f'B{row}'] = f'=INDEX({rng},H1)'
         meta.append((f'B{row}', {'area': name, 'form': 'r'}))
         row += 1
+    cells[f'A{row}'] = '=INDEX(V!A1:B6,H1,I1)'
+    meta.append((f'A{row}', {'area': 'below-used-range', 'form': 'r,c'}))
+    row += 1
     cells[f'A{row}'] = '=INDEX((B2:C3,D4:E5),H1,I1,J1)'
     meta.append((f'A{row}', {'area': 'two', 'form': 'r,c,a'}))
     cells[f'B{row}'] = '=INDEX((B2:C3,D4:E5),H1,I1)'
@@ -261,11 +274,20 @@ def build_index_scaffold():
 
 
 INDEX_CELLS, INDEX_META = build_index_scaffold()
-INDEX_SCAFFOLD = [('S', INDEX_CELLS)]
+INDEX_SCAFFOLD = [('S', INDEX_CELLS), ('V', {'A1': 9001, 'B1': 9002, 'A2': 9003, 'B2': 9004})]
 
 
 def expected_index(d, r, c, a):
     name, form = d['area'], d['form']
+    if name == 'below-used-range':
+        # V!A1:B6 on a sheet whose used range is A1:B2: rows 3..6 are blank cells of the area, not outside it
+        if r < 0 or c < 0:
+            return ANYERR
+        if r == 0 or c == 0:
+            return None
+        if r > 6 or c > 2:
+            return REF
+        return {(1, 1): 9001, (1, 2): 9002, (2, 1): 9003, (2, 2): 9004}.get((r, c), BLANK)
     if name == 'two':
         tops = {1: (2, 2), 2: (4, 4)}
         if form == 'r,c':
@@ -314,7 +336,10 @@ def run_index(cases, stats):
             stats['validated'] += 1
             if isinstance(want, R.Err):
                 stats['nontrivial'] += 1
-            ok, _ = R.same_value(want, o, named_errors=(want.kind != 'ANY') if isinstance(want, R.Err) else False)
+            if want == BLANK:
+                ok = o[0] == 'VALUE' and D.is_blank(o[1])
+            else:
+                ok, _ = R.same_value(want, o, named_errors=(want.kind != 'ANY') if isinstance(want, R.Err) else False)
             if not ok:
                 k, _ = o
                 vio.append({'i': i, 'desc': dict(d, func='INDEX', row_class='neg' if r < 0 else ('in' if isinstance(want, int) else 'out'),
@@ -514,14 +539,15 @@ def plan(tier, seed):
     th = tier == 'thorough'
 
     def key_cases(maxlen):
-        for alpha, looks in ((NUM_KEYS, NUM_LOOK), (TXT_KEYS, TXT_LOOK), (NUM_KEYS + [None], NUM_LOOK[1:6:2]), (TXT_KEYS[:2] + [None], TXT_LOOK[:2])):
+        for alpha, looks in ((NUM_KEYS, NUM_LOOK), (TXT_KEYS, TXT_LOOK), (NUM_KEYS + [None], NUM_LOOK[1:6:2]), (TXT_KEYS[:2] + [None], TXT_LOOK[:2]),
+                             ([1, 0, True, False], [True, False, 1, 0])):
             for n in range(1, maxlen + 1):
                 for keys in itertools.product(alpha, repeat=n):
                     for v in looks:
                         yield {'keys': list(keys), 'v': v}
 
     def index_cases():
-        for r in range(-1, 5):
+        for r in range(-1, 8):
             for c in range(-1, 5):
                 for a in (1, 2, 3):
                     yield {'r': r, 'c': c, 'a': a}
